@@ -524,13 +524,15 @@ class Input(object):
                 return False
             key = self.keys[key_n]
             sig = self.signatures[sig_n]
-            if verify(transaction_hash, sig, key):
+            # The transaction hash is calculated for this input's hash type: a signature with another hash type byte
+            # commits to another hash
+            if sig.hash_type == self.hash_type and verify(transaction_hash, sig, key):
                 sigs_verified += 1
                 sig_n += 1
             elif sig_n > 0:
                 # try previous signature
                 prev_sig = deepcopy(self.signatures[sig_n - 1])
-                if verify(transaction_hash, prev_sig, key):
+                if prev_sig.hash_type == self.hash_type and verify(transaction_hash, prev_sig, key):
                     sigs_verified += 1
             key_n += 1
         self.valid = True
